@@ -86,6 +86,9 @@ type Tools struct {
 	Missing map[string]bool      // tools LookPath does not find
 	Faults  map[string]ToolFault // invocation key -> fault
 	Errno   map[string]int64     // invocation key -> errno for cannot-start
+	// EarlyExit: that tool does not wait for the end of its input (it answers from what is in the pipe
+	// when it starts). Code that hands over the whole script with the start cannot tell the difference.
+	EarlyExit map[string]bool
 	// BusyOnce: the first start of that tool in the run fails with ETXTBSY, later starts work
 	BusyOnce map[string]bool
 	busySeen bool
@@ -165,6 +168,9 @@ func (t *Tools) CanStart(argv []string, stdin string) int64 {
 	}
 	return 0
 }
+
+// ExitsEarly implements the optional kernel hook.
+func (t *Tools) ExitsEarly(argv []string) bool { return t.EarlyExit[toolOf(argv)] }
 
 func (t *Tools) Run(argv []string, stdin string) kern.ToolResult {
 	tool := toolOf(argv)
